@@ -71,6 +71,11 @@ def file_suite(ctx, fmt, count, lang_of=lambda i: 'en'):
                     text = '\n'.join(ja_of(st.tree) for _, st in flat) + ('\n' if i % 2 else '')
                 else:
                     text = R.render(R.clone_batch(batch), fmt, lang) + '\n'
+                    if i % 5 == 2:
+                        # two runs appended to one file (`>> out`): every `print_` ends its text with an empty line
+                        batch2 = R.make_batch(rng, lang, n_sent=rng.randint(1, 2), licensed_only=True, awkward=0.0)
+                        text = text + R.render(R.clone_batch(batch2), fmt, lang) + '\n'
+                        flat = flat + [(si + 1, st) for si, sent in enumerate(batch2) for st in sent]
                     if i % 7 == 3:
                         # a file without its ID lines (hand-made / other tools)
                         text = '\n'.join(l for l in text.split('\n') if not l.startswith('ID')) + '\n'
